@@ -180,6 +180,9 @@ func (pc *provCtx) walkExtract(x *ssa.Extract, field string, out originSet, dept
 			case meth == "Get" && x.Index == 0:
 				out["entry"] = true
 				return
+			case x.Index == kv.Call.Signature().Results().Len()-1:
+				out[fmt.Sprintf("kverr:%s@%s", meth, m.P.pos(kv.Pos()))] = true
+				return
 			}
 		}
 		if f := t.Call.StaticCallee(); f != nil {
